@@ -15,6 +15,13 @@ TEXT = {
     "C06": ("proof", "Lean 4: for both arenas, every slot below the storage length is either the id of exactly one reachable node or exactly once on the free list (IdsOK), preserved by all mutators incl. merges, branch splits and multi-level root collapse; the arena view is a well-formed CompactArena whose allocated counts equal the reachable node counts; clear() leaves one empty leaf; the allocator reuses freed ids before growing. Raw arena state (mask, free-list order) compared with the model after every call. Churn bound and introspection calls: oracle + correspondence (stated)."),
     "C10": ("proof", "Lean 4: new/empty reject exactly c < 4 for every natural c and otherwise give an empty valid map; Default succeeds; try_get/get_item = get.ok_or(KeyNotFound); get_many fails iff a key is absent else returns values in order; batch_insert = the inserts one by one. Constructor guard regenerated from construction.rs and tied. Capacities 0..=4096 enumerated against the model; checked and basic calls mixed in differential histories. 'never reports an integrity error' rests on validators accepting valid states (oracle + correspondence)."),
     "C11": ("proof", "Lean 4 for the logic part: value multiset conservation for insert and remove (returned/displaced value is the stored one, nothing duplicated), live values = len, leaf keys = len so live keys lie in [len, len + separators], freed slots hold default empty nodes, clear owns nothing. 'Dropped exactly once' is Rust ownership: translator inventory proves no manual-ownership primitive in the crate; instance-counting K/V in the harness check live counts after every call and after drop. Labelled partial for the Drop clause."),
+    "C03": ("proof", "Lean 4: on every reachable state range(lo, hi) for all nine Bound combinations yields exactly the entries of the abstraction inside the bounds, ascending (empty or inverted intervals yield nothing, never a panic); items_range(a, b) and the explicit-end constructor likewise. Proved on the model of the code with D1/D2 repaired; Legacy lemmas prove the pre-repair behaviour wrong on the recorded witnesses; the two repaired guards are regenerated from range_queries.rs / iteration.rs and tied. Differential runs compare all bound kinds x endpoints (present keys, gaps, leaf boundaries, extremes) with the model and with BTreeMap::range."),
+    "C05": ("proof", "Lean 4: every reader of the model returns its result together with the precondition check of each unchecked access it performs (Res.ub otherwise); on every reachable state no reader, iterator step, range query or validator reaches ub. The inventory of `unsafe` tokens and *_unchecked call sites is regenerated from rust/src and must equal the catalogue the model covers (tie lemmas). The hooked build asserts the documented precondition inside every unchecked accessor during all differential runs. 'No UB elsewhere' rests on safe Rust (stated)."),
+    "C14": ("proof", "Lean 4 over ALL raw arena states (no invariant assumed): check_invariants = ok true implies every node reachable from the root is allocated, strictly sorted, has parallel key/value arrays, at most capacity and (non-root) at least capacity/2 keys, correct arity, and all keys of every subtree inside the interval its ancestors allow; contrapositives give rejection of each node-level damage kind; the detailed validator rejects whatever the basic one rejects. Model of the code with D3 repaired (tie); Legacy lemma shows the old guard accepting an emptied leaf. Chain / orphan damage kinds: decided by the oracle and the validator correspondence on ~14 kinds of injected damage (stated partial)."),
+    "C15": ("proof", "Lean 4 over ALL raw arena states (what any sequence of safe helper calls can produce): no reader, iterator step, range query or validator of the model reaches an unchecked access outside its precondition (Res.ub), with D4 repaired; legacy witnesses prove the pre-repair code reached ub. Tied by the regenerated inventory of unsafe / unchecked call sites. Helper-misuse programs run on the hooked build (precondition assertions inside the unchecked accessors) and on the model."),
+    "C07": ("proof", "Lean 4 refinement theorem for the pure-Python map: for every capacity >= 4 and every finite history of __setitem__/__delitem__/get/__getitem__/__contains__/len/bool/pop/popitem/setdefault/update/copy/clear/items the executable model never raises anything but KeyError and answers exactly what a strictly sorted association list (dict observed in key order) answers; None is a value like any other; popitem removes the smallest key; capacities < 4 rejected. Proved through the structural invariant (order, occupancy (cap-1)//2, chain) preserved by _insert_recursive and _delete_recursive/_handle_underflow (all borrow/merge paths, root collapse). Model tied to the source by regenerated thresholds + the normalised source text of every modelled function (TiePy) and by a differential run (every return value + full structural dump, 5 key representations, None values) also checked against dict. 'len for any size': translator + deep run (partial, stated)."),
+    "C08": ("proof", "Lean 4: on every valid state (hence after every history, by C07) items(a, b) of the model - the descent to the start leaf, bisect inside it, the chain walk and the exclusive end test - equals the filter a <= key < b of the strictly ascending entry list, for present/absent endpoints, None bounds, empty and inverted intervals; keys/values are its projections; the chain walk visits exactly the leaves in tree order. Differential run: bounded scans with endpoints from present/absent keys, sentinels and None vs the model and vs sorted(dict)."),
+    "C09": ("proof", "Lean 4: the invariant PInv (strict key order, arity, separator bounds, leaves <= capacity, branches <= capacity-1, non-root nodes >= (capacity-1)//2, branch root >= 2 children, chain from self.leaves = leaves in order ending in None; same depth intrinsic to the height-indexed type) holds for BPlusTreeMap(cap) and is preserved by assignment, deletion and clear for every capacity >= 4, hence for every reachable state; no call raises. Code with D8 repaired (tie). Independent structural walk after every mutation + exhaustive small histories at capacities 4-6 + full dump correspondence. from_sorted_items: oracle + correspondence only so far (stated partial)."),
     "C16": ("proof", "Lean 4 theorems over an executable model of CompactArena: a well-formedness invariant preserved by every call (all histories from new(), by induction), each call refines a partial map handle->item (fresh non-null handles, exact get/contains, release-once, exact counters, clear, compact keeps live items), allocate fails only when 2^32-1 slots are live. Tied to the code by a regenerated guard/constant tie and a differential run of the real arena vs the compiled model including free-list order."),
 }
 NOTE = "Trusted: Lean kernel; axioms propext/Classical.choice/Quot.sound only (audited per run); tools/extract.py and the harness; Vec/slice/mem::take/binary_search semantics; lawful total order on keys; arena slots < 2^32-1 for tree-level theorems (C16 treats the limit). The theorems are about the Lean model; the model is tied to /repo by regenerated tie lemmas and by the per-run correspondence (same op lines on real code and compiled model, all outputs and dumps diffed)."
@@ -52,6 +59,7 @@ def main():
         "engines": [
             {"name": "lean-model", "path": "lean", "serves_properties": claimed, "kind_free_text": "Lean 4 models, theorems (BPT/Props), tie lemmas (BPT/Generated), compiled line-protocol driver (Driver/)"},
             {"name": "rust-harness", "path": "harness/rust", "serves_properties": [c for c in claimed if c not in ("C07", "C08", "C09", "C12", "C13")], "kind_free_text": "in-process driver of the real Rust code with independent oracles; emits the op lines the model replays"},
+            {"name": "py-harness", "path": "harness/py", "serves_properties": [c for c in claimed if c in ("C07", "C08", "C09")], "kind_free_text": "in-process driver of the real pure-Python map with dict / structural oracles; emits the op lines the model replays"},
             {"name": "translator", "path": "tools/extract.py", "serves_properties": claimed, "kind_free_text": "regenerates constants, thresholds, guards and unsafe/ownership inventories from /repo into Lean"},
         ],
         "checks": checks,
